@@ -724,7 +724,7 @@ func c11Stream(dir string, seed int64, tier string) {
 			ls := c11Program(r, 14)
 			t := c11Render(ls, "\n", r.Intn(2) == 0)
 			ref := emit("valid", "-", t)
-			if r.Intn(8) == 0 {
+			if r.Intn(3) == 0 {
 				asm(t)
 			}
 			edits(ref, t)
